@@ -231,6 +231,14 @@ Proof.
   subst db3. apply resync_inv. apply with_disk_inv. subst db1. apply resync_inv. apply (Hw _ _ E).
 Qed.
 
+Lemma get_box_map_clients l n :
+  alist_get (map (fun nb : string * mbox => (fst nb, set_clients (snd nb) [])) l) n =
+  option_map (fun b => set_clients b []) (alist_get l n).
+Proof.
+  induction l as [|[k v] l IH]; cbn [map alist_get fst snd option_map]; [reflexivity|].
+  destruct (String.eqb n k); [reflexivity|exact IH].
+Qed.
+
 Theorem step_inv w o : winv w -> winv (fst (step w o)).
 Proof.
   intros Hw. destruct o; unfold step; cbv beta iota.
@@ -378,6 +386,10 @@ Proof.
     intros n' b' H. unfold get_box in H. cbn [w_boxes] in H. rewrite get_box_append in H.
     destruct (get_box w n') as [x|] eqn:E'; [inversion H; subst; apply (Hw _ _ E')|].
     destruct (String.eqb n' m); [inversion H; subst; apply empty_box_inv|discriminate].
+  - (* ORestart *)
+    cbn [fst]. intros n' b' H. unfold get_box in H. cbn [w_boxes] in H. rewrite get_box_map_clients in H.
+    destruct (alist_get (w_boxes w) n') as [b0|] eqn:E; [|discriminate]. cbn [option_map] in H. inversion H; subst b'.
+    destruct (Hw n' b0 E) as [_ Hu]. split; [constructor|exact Hu].
 Qed.
 
 Lemma init_inv a b c : winv (init_world a b c).
@@ -427,3 +439,10 @@ Proof.
   intros Hb c Hin. destruct (flush_clean b s c (proj1 Hb) Hin) as [H1 H2]. split; [exact H1|].
   rewrite H2. unfold uids. destruct (flush_msgs b s) as [M _]. rewrite M. reflexivity.
 Qed.
+
+Lemma reachable_binv ps pn pd ops n b :
+  get_box (fst (run (init_world ps pn pd) ops)) n = Some b ->
+  Forall (fun p => c_ok (snd p) = true /\
+                   apply_resps (c_view (snd p)) (c_pend (snd p)) = Some (uids b) /\
+                   (c_idle (snd p) = true -> c_pend (snd p) = [])) (b_clients b).
+Proof. intros H. exact (proj1 (reachable_inv ps pn pd ops n b H)). Qed.
